@@ -16,16 +16,16 @@ def Row.appends (r : Row) : Bool :=
 
 /-- what a row must satisfy in the current left state -/
 def RowPre (P : Params) (X : SParams) (s₁ : St) (r : Row) : Prop :=
-  EdgesPre P X s₁ (dropTrivial r.edges) ∧ (∀ d ∈ r.dests, d ∉ X.F) ∧ P.ρ r.nodeUuid = r.nodeUuid
+  EdgesPre P X s₁ (dropTrivial r.edges) ∧ (∀ d ∈ r.dests, d ∉ X.F) ∧ P.ρ r.nodeUuid = r.nodeUuid ∧ RV s₁
 
 theorem Eff.of_spost {s₁ s₂ t₁ t₂ : St} (h : SPost P X s₁ s₂ ⟨⟩ t₁ ⟨⟩ t₂) : Eff P s₁ t₁ :=
-  Eff.of_blkEq h.2.2.2
+  Eff.of_blkEq h.2.2.2 h.2.1.2.1
 
 /-- `_parse_row` -/
 theorem parseRow_rel (ok : P.Ok) {s₁ s₂ : St} (h : Sim P X s₁ s₂) (r0 : Row) (hpre : RowPre P X s₁ r0) :
     rwp (parseRow r0) (parseRow r0) s₁ s₂ (fun _ t₁ _ t₂ =>
       Sim P X t₁ t₂ ∧ t₁.stack = s₁.stack ∧ Eff P s₁ t₁ ∧ (r0.appends = true → MR P t₁)) := by
-  obtain ⟨hed, hds, hgiv⟩ := hpre
+  obtain ⟨hed, hds, hgiv, hrv⟩ := hpre
   unfold parseRow
   simp only []
   refine rwp_ite (fun hx => ?_) fun h1 => ?_
@@ -51,7 +51,7 @@ theorem parseRow_rel (ok : P.Ok) {s₁ s₂ : St} (h : Sim P X s₁ s₂) (r0 : 
     simp only [Row.appends, decide_eq_true_eq] at ha
     exact absurd hx ha.2.2.1
   refine rwp_ite (fun hx => ?_) fun h3 => ?_
-  · refine rwp_mono (parseNoop_rel ok h (dropTrivial r0.edges) r0.rowId hed) ?_
+  · refine rwp_mono (parseNoop_rel ok h (dropTrivial r0.edges) r0.rowId hed hrv) ?_
     intro _ t₁ _ t₂ ⟨ht, e, hm, hf⟩
     exact ⟨ht, e, hf, fun _ => hm⟩
   refine rwp_ite (fun hx => rwp_fail_left _ _ _ _ _) fun h4 => ?_
@@ -96,8 +96,8 @@ theorem mostRecentIn_congr {gs gs' : Array Grp} : ∀ st : List Nat, (∀ b ∈ 
 /-- same stack, and the blocks on it are the same groups -/
 def StackSame (s w : St) : Prop := w.stack = s.stack ∧ ∀ b ∈ s.stack, w.groups[b]? = s.groups[b]?
 
-theorem Eff.of_stackSame {s w : St} (h : StackSame s w) : Eff P s w := by
-  refine ⟨?_, ?_, ?_⟩
+theorem Eff.of_stackSame {s w : St} (h : StackSame s w) (hrv : RV s → RV w) (hk : HeadKeep s w) : Eff P s w := by
+  refine ⟨?_, ?_, ?_, hrv, hk⟩
   · intro hm x hx
     rw [h.1, mostRecentIn_congr _ h.2] at hx
     exact hm x hx
@@ -160,7 +160,12 @@ theorem eff_push (s : St) (hnt : ¬ P.T s.groups.size) :
       exact .inl ⟨hb, hg.symm⟩
     · simp only [hb, if_false] at hg
       exact .inr ⟨hb, hg⟩
-  refine ⟨?_, ?_, ?_⟩
+  refine ⟨?_, ?_, ?_, ?_, ?_⟩
+  rotate_left 3
+  · intro hr p hp
+    have := hr p hp
+    simp; omega
+  · refine ⟨fun j i l t hg => ⟨l, getElem?_push_lt' hg⟩, fun j c cs hg => ⟨cs, getElem?_push_lt' hg⟩, by simp⟩
   · intro hm x hx
     simp only [] at hx
     unfold mostRecentIn at hx
@@ -196,7 +201,7 @@ theorem eff_push (s : St) (hnt : ¬ P.T s.groups.size) :
 
 /-- `begin_block` / `begin_for` -/
 theorem openGroup_rel (ok : P.Ok) {s₁ s₂ : St} (h : Sim P X s₁ s₂) (edges : List Edge) (starting : Bool)
-    (hpre : starting = false → EdgesPre P X s₁ (dropTrivial edges)) :
+    (hpre : starting = false → EdgesPre P X s₁ (dropTrivial edges)) (hrv : RV s₁) :
     rwp (openGroup edges starting) (openGroup edges starting) s₁ s₂ (fun _ t₁ _ t₂ =>
       Sim P X t₁ t₂ ∧ t₁.stack = s₁.groups.size :: s₁.stack ∧ ¬ P.T s₁.groups.size ∧ Eff P s₁ t₁ ∧
       (starting = false → MR P t₁)) := by
@@ -209,7 +214,7 @@ theorem openGroup_rel (ok : P.Ok) {s₁ s₂ : St} (h : Sim P X s₁ s₂) (edge
   have h0 : P.γ s₁.groups.size = s₂.groups.size := by simpa using h.1.gsync 0
   have hne : s₁.groups.size ≠ P.bx := by have := h.1.bxlt; omega
   have a1 := h.1.addGrp (.block []) (by intro i hi; simp [gnodes] at hi) (by intro x hx; simp [grefs] at hx)
-    (by intro x hx; simp [grefs] at hx)
+    (by intro x hx; simp [grefs] at hx) ⟨by intro i hi; simp [gnodes] at hi, by intro x hx; simp [grefs] at hx⟩
   have hs1 : Sim P X { s₁ with groups := s₁.groups.push (.block []), stack := s₁.groups.size :: s₁.stack }
       { s₂ with groups := s₂.groups.push (.block []), stack := s₂.groups.size :: s₂.stack } :=
     ⟨a1.congr rfl rfl rfl rfl rfl rfl rfl rfl rfl rfl,
@@ -222,7 +227,7 @@ theorem openGroup_rel (ok : P.Ok) {s₁ s₂ : St} (h : Sim P X s₁ s₂) (edge
     exact ⟨hs1, rfl, hd.2, hef, fun hh => by cases hh⟩
   | false =>
     simp only [Bool.false_eq_true, if_false]
-    refine rwp_mono (parseNoop_rel ok hs1 (dropTrivial edges) [] ((hpre rfl).mono hef.mr)) ?_
+    refine rwp_mono (parseNoop_rel ok hs1 (dropTrivial edges) [] ((hpre rfl).mono hef.mr) (hef.rv hrv)) ?_
     intro _ t₁ _ t₂ ⟨ht, e, hm, hf⟩
     exact ⟨ht, e, hd.2, hef.trans hf, fun _ => hm⟩
 
@@ -251,9 +256,11 @@ theorem SSim.pop {s₁ s₂ : St} (h : SSim P X s₁ s₂) {b c : Nat} {rest : L
 
 /-- `end_block` / `end_for` -/
 theorem closeGroup_rel (ok : P.Ok) {s₁ s₂ : St} (h : Sim P X s₁ s₂) (rowId : Str)
-    (hclose : ∀ b c rest, s₁.stack = b :: c :: rest → P.T b → rowId ≠ [] → rowId ∈ X.F) :
+    (hclose : ∀ b c rest, s₁.stack = b :: c :: rest → P.T b → rowId ≠ [] → rowId ∈ X.F)
+    (hsbl : ∀ b ∈ s₁.stack, b < s₁.groups.size) :
     rwp (closeGroup rowId) (closeGroup rowId) s₁ s₂ (fun _ t₁ _ t₂ =>
-      Sim P X t₁ t₂ ∧ t₁.stack = s₁.stack.tail ∧ (SB s₁ → SB t₁) ∧ (∃ b c rest, s₁.stack = b :: c :: rest) ∧
+      Sim P X t₁ t₂ ∧ t₁.stack = s₁.stack.tail ∧ (SB s₁ → SB t₁) ∧ (RV s₁ → RV t₁) ∧ HeadKeep s₁ t₁ ∧
+      (∃ b c rest, s₁.stack = b :: c :: rest) ∧
       (∀ b, s₁.stack.head? = some b → ¬ P.T b → MR P t₁ ∧ (CL P s₁ → CL P t₁))) := by
   unfold closeGroup
   rw [rwp_get, h.2.stack]
@@ -269,14 +276,14 @@ theorem closeGroup_rel (ok : P.Ok) {s₁ s₂ : St} (h : Sim P X s₁ s₂) (row
     have hdb : P.DG b := h.2.stackDG b (by rw [hst]; simp)
     have hss := h.2.ss
     rw [hst, List.pairwise_cons] at hss
-    refine rwp_mono (appendGroup_rel ok hs1 rowId hdb ?_) ?_
+    refine rwp_mono (appendGroup_rel ok hs1 rowId hdb (hsbl b (by rw [hst]; simp)) ?_) ?_
     · intro htb
       refine ⟨?_, fun hne => hclose b c rest hst htb hne⟩
       intro b' hb'
       simp only [List.head?_cons, Option.some.injEq] at hb'
       rw [← hb']; exact hss.1 c (by simp) htb
-    · intro _ t₁ _ t₂ ⟨ht, e, _, _, hsb, hm⟩
-      refine ⟨ht, by rw [e]; rfl, ?_, ⟨b, c, rest, rfl⟩, ?_⟩
+    · intro _ t₁ _ t₂ ⟨ht, e, _, _, hsb, hrvt, hhk, hm⟩
+      refine ⟨ht, by rw [e]; rfl, ?_, hrvt, hhk, ⟨b, c, rest, rfl⟩, ?_⟩
       · intro hs
         apply hsb
         intro x hx
